@@ -1,11 +1,12 @@
 #!/bin/sh
 # tools/seed_eval.sh <patch.diff> <Cxx> [tier] : run a check against a seeded change.
+# SEED_BASE=<commit> applies the change on that commit instead of HEAD (for changes written against an earlier tree).
 # The change is applied to a scratch worktree of /repo (never to /repo itself while other checks may be
 # running); the check reads it through VERIF_REPO and writes evidence/logs under out/seed_eval/.
 set -u
 PATCH="$1"; PROP="$2"; TIER="${3:-quick}"
 SR=/var/tmp/seedrepo.$$
-git -C /repo worktree add -q --detach "$SR" HEAD || exit 9
+git -C /repo worktree add -q --detach "$SR" "${SEED_BASE:-HEAD}" || exit 9
 cp /repo/Cargo.lock "$SR/Cargo.lock"
 cd "$SR" && git apply "$PATCH" || { echo "patch does not apply"; git -C /repo worktree remove --force "$SR"; exit 9; }
 cd /verif
